@@ -191,6 +191,10 @@ def run(ctx):
                 if r:
                     res['failures'].append(r)
     res['failures'] += fixed_family_failures()[:3]
+    # two lazily read parsestream() results interleaved, and a complete split() between two reads of a stream: each
+    # script comes back as its own statements (the oracle lives in props/C20.py)
+    from props import C20 as _c20
+    res['failures'] += _c20.interleave_failures()[:1]
     dist['fixed_family'] = len(FIXED_FAMILY)
     # long opaque regions with `;` inside, many statements (oracle only): thresholds on token / input size
     for kind, text, span in gens.long_cases(ctx.quick()):
@@ -253,6 +257,8 @@ FIXED_FAMILY = [
     ('select 1 /* a /* b */; select "*/" from t; select 3', 3),
     ("#\n# banner\n#\nselect 1;\nselect 2;\n", 2),
     ("select 5 #\n 3; select 2", 2),
+    ("select 1 /*/ x; y */; select 2", 2),
+    ("select 1 /*+/ x; y */; select 2", 2),
 ]
 
 
@@ -267,12 +273,37 @@ def fixed_family_failures():
         if n != k:
             out.append({'input': [ord(c) for c in text], 'kind': 'k_statements_fixed', 'written': k, 'returned': n,
                         'observed': 'split() returns %s statements, %d are written: %r' % (n, k, text)})
+    # the same UTF-8 bytes script before and after unrelated calls that name another encoding: the same k statements
+    stmts = ['select c\u00f4t\u00e9 from t', 'select h\u00f4tel from u', "select 'a;b'", 'select 4']
+    script = ('; '.join(stmts) + ';').encode('utf-8')
+    for other, enc in (('select 1; select 2'.encode('utf-16'), 'utf-16'), ("select 'caf\u00e9'; select 2;".encode('latin-1'), 'latin-1'),
+                       (None, None)):
+        try:
+            got = sqlparse.split(script)
+            n = len(got)
+            if got != [x + ';' for x in stmts]:
+                n = 'other pieces (%d)' % n
+        except Exception as e:  # noqa
+            n = 'exception ' + type(e).__name__
+        if n != len(stmts):
+            out.append({'input': list(script), 'kind': 'k_statements_fixed', 'written': len(stmts), 'returned': n, 'form': 'bytes',
+                        'observed': 'split() of a UTF-8 bytes script of %d statements returns %s after an unrelated call with '
+                                    'another encoding' % (len(stmts), n)})
+            break
+        if other is not None:
+            try:
+                sqlparse.split(other, encoding=enc)
+            except Exception:  # noqa
+                pass
     return out
 
 
 def search(ctx, hints):
     import time
     fails = fixed_family_failures()[:1]
+    if not fails:
+        from props import C20 as _c20
+        fails = _c20.interleave_failures()[:1]
     tried = 0
     t0 = time.time()
     known = _known()
@@ -304,6 +335,13 @@ def replay(payload):
         if lc:
             g = long_split_failure(*lc)
             return {'fails': bool(g), 'observed': g}
+    if f.get('kind') == 'interleaved_streams':
+        from props import C20 as _c20
+        g = _c20.oracle(f)
+        return {'fails': bool(g), 'observed': g}
+    if f.get('form') == 'bytes':
+        g = [x for x in fixed_family_failures() if x.get('form') == 'bytes']
+        return {'fails': bool(g), 'observed': g[0]['observed'] if g else 'the bytes script splits as written'}
     if f.get('form') == 'stream':
         import io
         n = len(sqlparse.split(io.StringIO(s)))
